@@ -34,7 +34,29 @@ class C15(Check):
                     'auths': [True], 'subs': [True]})
         out.append({'kind': 'ssh', 'verify': True, 'known': 'a', 'pinned': 'a', 'cb': True, 'profile': 'nexus', 'negotiates': True,
                     'auths': [True], 'subs': [False, True]})
-        for t in ('right-ca', 'wrong-ca', 'wrong-hostname', 'wrong-hostname-unchecked'):
+        # histories: several connects in one process sharing one known_hosts file (same host on different ports, different server
+        # keys): every connect must be decided as it would be alone (no state carried from one connection to the next)
+        host = 'device.example'
+        for i in range(60 if tier == 'quick' else 1500):
+            keysn = ['server', 'other', 'third']
+            ports = [830, 2022, 2023]
+            entries = []
+            if rng.random() < 0.8:
+                entries.append([host, rng.choice(keysn)])
+            for p in ports[1:]:
+                if rng.random() < 0.6:
+                    entries.append(['[%s]:%d' % (host, p), rng.choice(keysn)])
+            connects = []
+            for _ in range(rng.randint(2, 4)):
+                port, sk = rng.choice(ports), rng.choice(keysn)
+                ek = dict((pat, kn) for pat, kn in entries)
+                under_host, under_port = ek.get(host), ek.get('[%s]:%d' % (host, port))
+                known = 'h' if under_host == sk else ('p' if under_port == sk else ('d' if (under_host or under_port) else 'a'))
+                connects.append({'kind': 'ssh', 'verify': True, 'known': known, 'pinned': rng.choice('aaaamd'), 'cb': rng.random() < 0.2,
+                                 'profile': 'default', 'negotiates': True, 'auths': rng.choice([[True], [True], [False]]), 'subs': [True],
+                                 'host': host, 'port': port, 'server_key': sk})
+            out.append({'kind': 'sshseq', 'entries': entries, 'connects': connects})
+        for t in ('right-ca', 'wrong-ca', 'wrong-hostname', 'wrong-hostname-unchecked', 'no-ca-but-system-store'):
             out.append({'kind': 'tls', 'trust': t})
         # the documented protocol constants x host-name checking on/off, against a server whose certificate chains to ANOTHER CA
         for proto in ('PROTOCOL_TLS_CLIENT', 'PROTOCOL_TLS', 'PROTOCOL_TLSv1_2'):
@@ -47,13 +69,22 @@ class C15(Check):
         if case['kind'] == 'ssh':
             from impl.sshmock import run_connect
             return run_connect(case)
+        if case['kind'] == 'sshseq':
+            from impl.sshmock import run_sequence
+            return run_sequence(case)
         from impl import e2e
+        import os
         sc = {'transport': 'tls', 'profile': 'default'}
         if 'protocol' in case:
             sc['protocol'] = case['protocol']
             sc['check_hostname'] = case['check_hostname']
         if case['trust'] == 'wrong-ca':
             sc['ca_certs'] = e2e.pki()['otherca']
+        env_old = os.environ.get('SSL_CERT_FILE')
+        if case['trust'] == 'no-ca-but-system-store':
+            # the caller names NO CA; the machine's default trust store (here: pointed at the harness CA) must not stand in for it
+            sc['ca_certs'] = False
+            os.environ['SSL_CERT_FILE'] = e2e.pki()['ca']
         if case['trust'].startswith('wrong-hostname'):
             sc['server_hostname'] = 'not-the-server.example'
             sc['check_hostname'] = case['trust'] == 'wrong-hostname'
@@ -73,21 +104,40 @@ class C15(Check):
                     'client_hello_seen': srv.client_hello is not None}
         finally:
             srv.cleanup()
+            if env_old is None:
+                os.environ.pop('SSL_CERT_FILE', None)
+            else:
+                os.environ['SSL_CERT_FILE'] = env_old
+
+    def _line(self, case):
+        cb = True if case['profile'] in OVERRIDING else case['cb']
+        return 'cn ssh %d %s %s %d %d %s %s' % (case['verify'], case['known'], case['pinned'], cb, case['negotiates'], bits(case['auths']), bits(case['subs']))
 
     def model_lines(self, case):
+        if case['kind'] == 'sshseq':
+            return [self._line(c) for c in case['connects']]
         if case['kind'] != 'ssh':
             return []
-        cb = True if case['profile'] in OVERRIDING else case['cb']
-        return ['cn ssh %d %s %s %d %d %s %s' % (case['verify'], case['known'], case['pinned'], cb, case['negotiates'], bits(case['auths']), bits(case['subs']))]
+        return [self._line(case)]
 
     def model_obs(self, case, outs):
+        def one(o):
+            t, r = o.split(' ')
+            return {'trace': [] if t == '_' else t.split(','), 'result': r}
+        if case['kind'] == 'sshseq':
+            return {'results': [one(o) for o in outs]}
         if case['kind'] != 'ssh':
             return None
-        t, r = outs[0].split(' ')
-        return {'trace': [] if t == '_' else t.split(','), 'result': r}
+        return one(outs[0])
 
     def compare(self, case, io, mo):
         if mo is None:
+            return None
+        if case['kind'] == 'sshseq':
+            for k, (c, i, m) in enumerate(zip(case['connects'], io['results'], mo['results'])):
+                d = self.compare(c, i, m)
+                if d:
+                    return 'connect %d of the history: %s' % (k + 1, d)
             return None
         a, b = list(io['trace']), list(mo['trace'])
         # the key comparison is internal (no call on the transport) and profile-installed callbacks cannot be logged
@@ -99,6 +149,13 @@ class C15(Check):
         return None
 
     def oracle(self, case, io):
+        if case['kind'] == 'sshseq':
+            for k, (c, i) in enumerate(zip(case['connects'], io['results'])):
+                r = self.oracle(c, i)
+                if r:
+                    return (r[0] + '@history', 'connect %d of %d in one process (known_hosts %s; host key %s on port %d): %s' % (
+                        k + 1, len(case['connects']), case['entries'], c['server_key'], c['port'], r[1]))
+            return None
         if case['kind'] == 'tls':
             t = case['trust']
             if t in ('right-ca', 'wrong-hostname-unchecked'):
@@ -142,7 +199,7 @@ class C15(Check):
         return None
 
     def nontrivial(self, case, io):
-        return case['kind'] == 'tls' or case['verify'] or bool(case['auths'])
+        return case['kind'] in ('tls', 'sshseq') or case['verify'] or bool(case['auths'])
 
 
 CHECK = C15
